@@ -104,7 +104,9 @@ ImplEnumLabelsP == IF First THEN TRUE ELSE
             img == {r.map[x] : x \in TrueVars(r) \cap DOMAIN r.map}
         IN /\ TrueVars(r) \subseteq DOMAIN r.map
            /\ \A x \in VarsOf(out) : x < n => x \in img
-           /\ (~St.op[3] => out = Relabel(PolyOf(r.ts), r.map)))
+           /\ (~St.op[3] => out = Relabel(PolyOf(r.ts), r.map))
+           \* ancillas created by a reduction (hook H1): strictly above every reported variable, not a mapped label
+           /\ \A z \in ToSet(St.cert_z) : z >= n /\ z \notin {r.map[x] : x \in DOMAIN r.map})
 AllOK == TermsMatchP /\ KindMatchP /\ ImplNoRaiseP /\ ImplUpperBoundsP /\ ImplMappingBijectionP /\ ImplStoredCanonicalP
          /\ ImplRefreshExactP /\ ImplAncCoversP /\ ImplAncFreshP /\ ImplUnchangedOthersP /\ ImplEnumLabelsP
 TermsMatch == Clause("TermsMatch", TermsMatchP)
